@@ -99,14 +99,16 @@ Record dset := mk_dset {
   ds_after_ns : nat;
   ds_index : nat }.
 
+(* the buffers an entry's write calls touch ... *)
 Record state := mk_state {
   string_fields : pbuf;
   fields : pbuf;
   metrics : pbuf;
-  dimensions : pbuf;
-  counts : pbuf;
   decl : pbuf;
   dsmap : list dset }.
+(* ... and the whole persistent formatter state: dimensions_buf is only used inside finish (cleared first),
+   counts_buf only inside write_metric_value (cleared before and after use) *)
+Record fstate := mk_fstate { st : state; dimensions : pbuf; counts : pbuf }.
 
 Definition ns_enc (c : config) : list bytes := map jstr (namespaces c).
 Definition each_dims_enc (c : config) : list bytes := map jarr_strings (default_dims c).
@@ -131,9 +133,9 @@ Definition directive_json (d : directive) : bytes :=
   join comma (map metric_def_json (d_metrics d)) ++ bs "],""Namespace"":" ++ jstr (d_namespace d) ++ bs "}".
 Definition extra_directives (c : config) : bytes := flat_map (fun d => comma ++ directive_json d) (directives c).
 
-Definition fresh (c : config) : state :=
-  mk_state (pb_new []) (pb_new (bs "}")) (pb_new (bs "],""Metrics"":[")) (pb_new (dims_prefix c))
-           (pb_new (bs "],""Counts"":[")) (pb_new (extra_directives c)) [].
+Definition fresh (c : config) : fstate :=
+  mk_fstate (mk_state (pb_new []) (pb_new (bs "}")) (pb_new (bs "],""Metrics"":[")) (pb_new (extra_directives c)) [])
+            (pb_new (dims_prefix c)) (pb_new (bs "],""Counts"":[")).
 
 (* ------------------------------------------------------------------ per-call writer *)
 
@@ -320,7 +322,7 @@ Definition validate_string (w : writer) (name : bytes) : writer :=
 Definition do_string (c : config) (w : writer) (name value : bytes) : writer :=
   let s := w_state w in
   let s' := mk_state (pb_push (string_fields s) (comma ++ jstr name ++ [58] ++ jstr value))
-                     (fields s) (metrics s) (dimensions s) (counts s) (decl s) (dsmap s) in
+                     (fields s) (metrics s) (decl s) (dsmap s) in
   let w1 := set_state w s' in
   if skip_unique c then w1 else validate_string w1 name.
 
@@ -346,7 +348,7 @@ Definition do_metric (c : config) (ftab : list (N * bytes)) (mult : option N) (w
   if is_global then
     let w2 := if negb (skip_unique c) && negb (unroutable w1) then validate_metric w1 name 0 else w1 in
     let '(fb, mb) := write_metric ftab mult name os u fl (fields s) (metrics s) in
-    set_state w2 (mk_state (string_fields s) fb mb (dimensions s) (counts s) (decl s) (dsmap s))
+    set_state w2 (mk_state (string_fields s) fb mb (decl s) (dsmap s))
   else
     let key := sort_dims dims in
     let each := match entry_dims w1 with Some e => e | None => each_dims_enc c end in
@@ -357,8 +359,7 @@ Definition do_metric (c : config) (ftab : list (N * bytes)) (mult : option N) (w
     let w2 := if negb (skip_unique c) && negb (unroutable w1) then validate_metric w1 name (ds_index d) else w1 in
     let '(fb, mb) := write_metric ftab mult name os u fl (ds_fields d) (ds_metrics d) in
     let d' := mk_dset (ds_key d) fb mb (ds_after_ns d) (ds_index d) in
-    set_state w2 (mk_state (string_fields s) (fields s) (metrics s) (dimensions s) (counts s) (decl s)
-                           (ds_update (dsmap s) d')).
+    set_state w2 (mk_state (string_fields s) (fields s) (metrics s) (decl s) (ds_update (dsmap s) d')).
 
 Definition do_value (c : config) (ftab : list (N * bytes)) (mult : option N) (w : writer) (name : bytes) (v : vcall) : writer :=
   let '(w1, ok) := validate_name c w name in
@@ -472,30 +473,30 @@ Fixpoint finish_dsets (c : config) (ts : bytes) (sf : bytes) (ds : list dset) (s
         end
   end.
 
-Definition finish (c : config) (now_ms : N) (w : writer) (script : list wresp) : state * result * bytes :=
+Definition finish (c : config) (now_ms : N) (w : writer) (dim cnt : pbuf) (script : list wresp) : fstate * result * bytes :=
   let errs := errors w ++ (if negb (skip_dims c) && negb (unroutable w) then missing_dim_errors w else []) in
   let ts := render_dec (match w_timestamp w with Some t => millis t | None => now_ms end) in
   let s := w_state w in
   match errs with
-  | _ :: _ => (s, RValidation errs, [])
+  | _ :: _ => (mk_fstate s dim cnt, RValidation errs, [])
   | [] =>
     let decl1 := pb_push (decl s) (lg_and_ts c ++ ts) in
     let sf1 := pb_push (string_fields s) (bs "}" ++ [10]) in
     let '(ds', sc, rec, emitted, res) := finish_dsets c ts (pdata sf1) (dsmap s) script [] false in
-    let s1 := mk_state sf1 (fields s) (metrics s) (dimensions s) (counts s) decl1 ds' in
+    let s1 := mk_fstate (mk_state sf1 (fields s) (metrics s) decl1 ds') dim cnt in
     match res with
     | WZero => (s1, RIo true, rec)
     | WFail => (s1, RIo false, rec)
     | WOk =>
       if negb emitted || negb (pb_is_empty (fields s)) then
         let dims_list := match entry_dims w with Some e => e | None => each_dims_enc c end in
-        let dim1 := pb_push (pb_clear (dimensions s)) (join comma dims_list) in
+        let dim1 := pb_push (pb_clear dim) (join comma dims_list) in
         let mb1 := pb_push (metrics s) (bs "]}") in
         let mlen := pb_len mb1 in
         let mb2 := fold_left (fun mb ns =>
                      pb_extend_within (pb_push mb (bs ",{""Namespace"":" ++ ns ++ skipn (after_ns_index c) (pdata dim1))) 0 mlen)
                      (tl (ns_enc c)) mb1 in
-        let s2 := mk_state sf1 (fields s) mb2 dim1 (counts s) decl1 ds' in
+        let s2 := mk_fstate (mk_state sf1 (fields s) mb2 decl1 ds') dim1 cnt in
         let '(sc2, rec2, res2) :=
           write_all_vectored sc [pdata dim1; pdata mb2; pdata decl1; pdata (fields s); pdata sf1] rec in
         match res2 with
@@ -510,21 +511,20 @@ Definition finish (c : config) (now_ms : N) (w : writer) (script : list wresp) :
 (* ------------------------------------------------------------------ format_with_multiplicity *)
 
 Definition prologue (s : state) : state :=
-  mk_state (pb_clear (string_fields s)) (pb_clear (fields s)) (pb_clear (metrics s)) (dimensions s)
-           (counts s) (pb_clear (decl s)) [].
+  mk_state (pb_clear (string_fields s)) (pb_clear (fields s)) (pb_clear (metrics s)) (pb_clear (decl s)) [].
 
 Definition init_writer (c : config) (s : state) : writer :=
   mk_writer (prologue s) (if skip_dims c then [] else vmap_base c) None None [] false false.
 
-Definition format (c : config) (s : state) (mult : option N) (e : entry)
-           (now_ms : N) (ftab : list (N * bytes)) (script : list wresp) : state * result * bytes :=
-  let w := fold_left (do_item c ftab mult) e (init_writer c s) in
-  finish c now_ms w script.
+Definition format (c : config) (s : fstate) (mult : option N) (e : entry)
+           (now_ms : N) (ftab : list (N * bytes)) (script : list wresp) : fstate * result * bytes :=
+  let w := fold_left (do_item c ftab mult) e (init_writer c (st s)) in
+  finish c now_ms w (dimensions s) (counts s) script.
 
 (* a sequence of calls on one formatter *)
 Record call := mk_call { c_mult : option N; c_entry : entry; c_now : N; c_ftab : list (N * bytes); c_script : list wresp }.
-Definition format_call (c : config) (s : state) (k : call) := format c s (c_mult k) (c_entry k) (c_now k) (c_ftab k) (c_script k).
-Fixpoint run_calls (c : config) (s : state) (ks : list call) : list (result * bytes) :=
+Definition format_call (c : config) (s : fstate) (k : call) := format c s (c_mult k) (c_entry k) (c_now k) (c_ftab k) (c_script k).
+Fixpoint run_calls (c : config) (s : fstate) (ks : list call) : list (result * bytes) :=
   match ks with
   | [] => []
   | k :: r => let '(s', res, out) := format_call c s k in (res, out) :: run_calls c s' r
